@@ -215,6 +215,25 @@ def base_solution(tdgl, tmp, nsteps=5, k=2, kind="barhole", composite=None):
     return sol
 
 
+def raising_is_an_observation(kind):
+    """The real code raising anywhere while an object is built, saved or loaded is an observation (the model continues
+    where the code stopped), not a harness failure: it becomes a trace that ends in a failed save."""
+    def deco(fn):
+        def wrapped(tdgl, args, tmp, *more):
+            try:
+                return fn(tdgl, args, tmp, *more)
+            except Exception as e:
+                import traceback
+
+                shape = args.get("shape", args) if isinstance(args, dict) else args
+                return {"kind": kind, "shape": shape, "label": f"{kind} {json.dumps(shape, sort_keys=True, default=str)[:200]}",
+                        "ev": [{"ev": "save", "ok": False, "rec": {}, "present": [],
+                                "err": f"{type(e).__name__}: {str(e)[:160]} @ {traceback.format_exc().strip().splitlines()[-3].strip()[:120]}"}]}
+        wrapped.__name__ = fn.__name__
+        return wrapped
+    return deco
+
+
 # ---------------------------------------------------------------- options
 
 
@@ -222,6 +241,7 @@ def make_options(tdgl, table, rec):
     return tdgl.SolverOptions(**{f: table[f][rec[f]] for f in OPT_NAMES})
 
 
+@raising_is_an_observation("options")
 def options_case(tdgl, rec, tmp, real=False):
     """One option record -> trace.  real=False: the record replaces the options of a tiny solved Solution, which is
     saved to a new file; real=True: the record is used for a real tiny solve that writes its own file."""
@@ -241,9 +261,17 @@ def options_case(tdgl, rec, tmp, real=False):
         table["dt_init"] = {"d": 1e-2, "n": 5e-3}
         opts = make_options(tdgl, table, rec)
         dev = devices.make(tdgl, "bar", mel=1.3, probes=2)
-        ok, sol, err = guarded(lambda: tdgl.solve(dev, opts, applied_vector_potential=0.1,
-                                                  terminal_currents={"source": 0.5, "drain": -0.5}))
-        ok = ok and sol is not None
+        try:
+            sol = tdgl.solve(dev, opts, applied_vector_potential=0.02)
+            ok, err = sol is not None, "solve returned None"
+        except Exception as e:
+            import traceback
+
+            tb = traceback.format_exc()
+            if "solution.py" not in tb and "/device/" not in tb and "finite_volume/mesh.py" not in tb:
+                # the run itself failed (physics / numerics): nothing was saved, not a save/load observation
+                return {"skip": f"{type(e).__name__}: {str(e)[:100]}", "label": tr["label"]}
+            ok, sol, err = False, None, f"{type(e).__name__}: {str(e)[:160]}"
         path = sol.path if ok else out
     else:
         sol = base_solution(tdgl, tmp)
@@ -300,6 +328,7 @@ def build_device(tdgl, shape, variant=0):
     return dev
 
 
+@raising_is_an_observation("device")
 def device_case(tdgl, args, tmp):
     import h5py
 
@@ -346,6 +375,7 @@ def device_many(tdgl, args, tmp):
 # ---------------------------------------------------------------- meshes
 
 
+@raising_is_an_observation("mesh")
 def mesh_case(tdgl, args, tmp):
     import h5py
 
@@ -425,6 +455,7 @@ def dyn_id(I, dyn):
 RUNS = {1: (0, 100), 2: (3, 100), 3: (4, 2), 4: (5, 2)}      # nframes -> (steps, save_every)
 
 
+@raising_is_an_observation("solution")
 def solution_case(tdgl, args, tmp):
     import h5py
 
